@@ -283,7 +283,7 @@ def classify(out, r, case, snap, spans):
     # evidence that a value file really was lost: a row without file at the end, or a lookup of a candidate key that
     # missed after the rollback although the key is (still) reported present
     rollback_step = max([q['last'] or 0 for recs in [r['calls'][0]] for q in recs if q['op'] == 'raise_in_block' and not q.get('skipped')] + [0])
-    missed_after = any(rec.get('first') is not None and rec['first'] > rollback_step and
+    missed_after = any(rec.get('last') is not None and rec['last'] > rollback_step and
                        (rec.get('result') == MISS or rec.get('exc') in ('KeyError', 'IndexError')) and
                        (cand_all or rec['call'].get('key') in cand or rec['op'] in ('items',))
                        for recs in r['calls'] for rec in recs if not rec.get('skipped'))
